@@ -412,7 +412,9 @@ def _run(case, scratch):
           else:
             msg = str(exc)
             want_locs = "['']" if os.path.isabs(who) else prefixes_text
-            if who not in msg or want_locs not in msg:
+            locs = [] if os.path.isabs(who) else [
+                scratch if l == '@SCRATCH' else l for l in case['locations']]
+            if who not in msg or not all(l in msg for l in locs):
               v('C14.ioerror_text', [],
                 '%s: IOError text does not name the file %r and the searched '
                 'locations %s:\n%s' % (label, who, want_locs, msg[:400]))
